@@ -3,6 +3,7 @@ import TomlVerif.Driver.C12
 import TomlVerif.Driver.C11
 import TomlVerif.Driver.Canon
 import TomlVerif.Driver.Stack
+import TomlVerif.Driver.C15
 
 open TomlVerif
 
@@ -14,6 +15,7 @@ def dispatch (mode : String) (line : String) : String :=
   | "doc" => Driver.docLine line
   | "val" => Driver.valLine line
   | "stack" => Driver.stackLine line
+  | "c15" => Driver.c15 line
   | _ => "bad-mode"
 
 partial def loop (mode : String) (h : IO.FS.Stream) (out : IO.FS.Stream) : IO Unit := do
